@@ -506,79 +506,23 @@ class UPSequentialSimulator(Engine, SequentialSimulatorMixin):
                     updated_values[f] = v
                     assigned_fluent.add(f)
 
-            for effect in g_action.conditional_effects:
-                for e in effect.expand_effect(
-                    cast(up.model.mixins.ObjectsSetMixin, self._problem)
-                ):
-                    if not e.fluent.type.is_bool_type():
-                        evaluated_condition = evaluate(
-                            e.condition
-                        ).bool_constant_value()
-                        if evaluated_condition:
-                            try:
-                                fluent, value = self._evaluate_effect(
-                                    e,
-                                    state,
-                                    updated_values,
-                                    assigned_fluent,
-                                    em,
-                                    evaluated_condition=evaluated_condition,
-                                )
-                                assert fluent is not None and value is not None
-                                updated_values[fluent] = value
-                            except UPConflictingEffectsException:
-                                reason = InapplicabilityReasons.CONFLICTING_EFFECTS
-                                if early_termination:
-                                    return unsatisfied_conditions, reason
-
-            if updated_values:
-                for effect in g_action.unconditional_effects:
+            # Evaluate every effect exactly as apply_unsafe does, so that the two paths can not
+            # disagree (conditional effects, Boolean add-after-delete, accumulated increases)
+            try:
+                for effect in g_action.effects:
                     for e in effect.expand_effect(
                         cast(up.model.mixins.ObjectsSetMixin, self._problem)
                     ):
-                        ev_fluent = e.fluent.fluent()(*(map(evaluate, e.fluent.args)))
-                        values = updated_values.get(ev_fluent, None)
-                        if values is not None:
-                            try:
-                                fluent, value = self._evaluate_effect(
-                                    e,
-                                    state,
-                                    updated_values,
-                                    assigned_fluent,
-                                    em,
-                                    evaluated_fluent=ev_fluent,
-                                    evaluated_condition=True,
-                                )
-                                assert fluent is not None and value is not None
-                                updated_values[fluent] = value
-                            except UPConflictingEffectsException:
-                                reason = InapplicabilityReasons.CONFLICTING_EFFECTS
-                                if early_termination:
-                                    return unsatisfied_conditions, reason
-
-            for effect in g_action.effects:
-                for e in effect.expand_effect(
-                    cast(up.model.mixins.ObjectsSetMixin, self._problem)
-                ):
-                    if e.fluent.fluent() in self._fluents_in_state_invariants:
-                        ev_fluent = e.fluent.fluent()(*(map(evaluate, e.fluent.args)))
-                        if ev_fluent in self._fluent_exps_in_state_invariants:
-                            if ev_fluent not in updated_values:
-                                try:
-                                    fluent, value = self._evaluate_effect(
-                                        e,
-                                        state,
-                                        updated_values,
-                                        assigned_fluent,
-                                        em,
-                                        evaluated_fluent=ev_fluent,
-                                    )
-                                    assert fluent is not None and value is not None
-                                    updated_values[fluent] = value
-                                except UPConflictingEffectsException:
-                                    raise UPUnreachableCodeError(
-                                        "Conflicting effects should be caught above"
-                                    )
+                        fluent, value = self._evaluate_effect(
+                            e, state, updated_values, assigned_fluent, em
+                        )
+                        if fluent is not None:
+                            assert value is not None
+                            updated_values[fluent] = value
+            except UPConflictingEffectsException:
+                reason = InapplicabilityReasons.CONFLICTING_EFFECTS
+                if early_termination:
+                    return unsatisfied_conditions, reason
 
             if not isinstance(state, up.model.UPState):
                 raise UPUsageError(
